@@ -35,6 +35,16 @@ def run(prog, rep):
     rep.expect_min("C13.weights", 7)
     rep.expect_min("C13.delta", 4)
     rep.expect_min("C13.order", 2)
+    # a least-squares request must arrive: Distribution.fit hands the data and the weights unchanged to _fit_lsq for 'lsq' / 'wlsq'
+    # (the rows of C12.dispatch), and a joint model completes a fit description without losing its method (the rows of C09.defaults)
+    from vstat.report import Relabel
+    from . import c12, c09
+    req = Relabel(rep, "C13.request")
+    rep.part(c12.dispatch, prog, req)
+    rep.part(c09.defaults, prog, req)
+    rep.expect_min("C13.request", 7)
+    rep.explanation += (" C13.request: the rows of C12.dispatch and C09.defaults - method 'lsq'/'wlsq' reaches _fit_lsq(data, weights) with the data and "
+                        "the weights as given (not sorted, not replaced), also when the request is a fit description of a joint model.")
 
 
 def filtered(name, keyname="x"):
